@@ -10,6 +10,7 @@ from __future__ import annotations
 
 import copy
 import hashlib
+import json
 import importlib.util  # noqa: F401
 import logging
 import os
@@ -248,6 +249,18 @@ def reset_infretis_globals():
 CHECK_STORE = False      # set by the C14 check: compare live paths with their stored form after every step
 
 
+def _json_default(o):
+    if isinstance(o, np.ndarray):
+        return o.tolist()
+    if isinstance(o, np.integer):
+        return int(o)
+    if isinstance(o, np.floating):
+        return float(o)
+    if isinstance(o, Fraction):
+        return float(o)
+    return str(o)
+
+
 class Segment:
     """One process lifetime of infretis in `rundir` (a fresh start or a restart)."""
 
@@ -329,6 +342,10 @@ class Segment:
         ev = {"ev": name, "st": self.project()}
         ev.update(args)
         self.events.append(ev)
+        sink = getattr(self, "sink", None)
+        if sink is not None:          # recorded runs that may be killed at any moment: every event reaches the disk at once
+            sink.write(json.dumps(ev, default=_json_default) + "\n")
+            sink.flush()
         return ev
 
     # -- actions -------------------------------------------------------------------
